@@ -179,6 +179,11 @@ def run_property(prop, tier, seed, only=None, verbose=False):
             t = rep.target
             if isinstance(t, Target):
                 verdict, detail = verify.replay_obligation(t, ob)
+            elif hasattr(t, 'replay') and ob.model is not None:
+                try:
+                    verdict, detail = t.replay(ob.model)
+                except Exception as err:
+                    verdict, detail = 'no-replay', {"reason": "lemma replay failed: %s: %s" % (type(err).__name__, err)}
             else:
                 verdict, detail = 'no-replay', {"reason": "lemma (no code to replay)"}
             if verdict == 'confirmed':
